@@ -441,6 +441,7 @@ Settle(T) == IF InternalEnabled(T) THEN Settle(InternalStep(T)) ELSE T
 
 Observation(T) ==
   [main |-> CS!Proj(T.mcfg),
+   mainv |-> WView(T.mcfg),
    workers |-> [w \in RealAlive(T) |-> WView(T.wcfg[w])],
    hv |-> [w \in {x \in Workers : T.hview[x] # "none"} |-> T.hview[w]],
    verdicts |-> T.ghost.verdicts]
